@@ -126,11 +126,12 @@ def run(tier, replay=None):
         #  ProbeTs          - swapped deliveries: a probe that records the probing operation's stamp as creation time
         #  NoProbeAfterDrop - overtaking operations / rejected re-creations: "create < drop < t, both recorded" answered
         #                     "created" instead of probing (the request is sent for an incarnation nobody has seen)
-        #  GcByPrefix (WriterReq) / GcPrefix (WriterReady, thorough tier) - sibling drops: drop records garbage-collected by key prefix
+        #  GcByPrefix (WriterReq) / GcPrefix (WriterReady) - sibling drops: drop records garbage-collected by key prefix; thorough tier
+        #                     (the quick tier of C20 runs the WriterReq control on every invocation)
         ctl = [("WriterReady", "WriterReady_ProbeTs.cfg", "Contract", "out-of-order delivery"),
-               ("WriterReady", "WriterReady_NoProbeAfterDrop.cfg", "Contract", "an operation overtaking the re-creation"),
-               ("WriterReq", "WriterReq_GcPrefix.cfg", "ContractHolds", "the drop of a sibling with a prefix-related name (list operations)")]
+               ("WriterReady", "WriterReady_NoProbeAfterDrop.cfg", "Contract", "an operation overtaking the re-creation")]
         if tier == "thorough":
+            ctl.append(("WriterReq", "WriterReq_GcPrefix.cfg", "ContractHolds", "the drop of a sibling with a prefix-related name (list operations)"))
             ctl.append(("WriterReady", "WriterReady_GcPrefix.cfg", "Contract", "the drop of a sibling collection (histories)"))
         with ThreadPoolExecutor(len(ctl)) as ex:
             rs = list(ex.map(lambda c: vlib.run_tlc(c[0], c[1], workers=4, timeout=300, tag=c[0] + "-ctl-" + c[1][:-4]), ctl))
